@@ -146,6 +146,30 @@ def run(case, res):
                         refused += 1
                 if refused != 3:
                     return Violation('pass_failure', 'malformed_block_accepted', {'refused': refused}, tags)
+                # a block that passes the passes' entry sanity check and is refused later, from
+                # the middle of the copy: a register whose reset value was overwritten with one
+                # that does not fit (clone_wire re-validates it)
+                bad2 = pyrtl.Block()
+                with pyrtl.set_working_block(bad2, no_sanity_check=True):
+                    bi = pyrtl.Input(3, 'bi')
+                    br = pyrtl.Register(3, 'br')
+                    bo = pyrtl.Output(3, 'bo')
+                    br.next <<= bi
+                    bo <<= br
+                br.reset_value = 9 + (op['a'] % 5)
+                late = 0
+                for fn in (lambda: pyrtl.copy_block(bad2, update_working_block=False),
+                           lambda: pyrtl.synthesize(update_working_block=False, block=bad2),
+                           lambda: pyrtl.optimize(update_working_block=False, block=bad2)):
+                    try:
+                        with transforms.quiet():
+                            fn()
+                    except (pyrtl.PyrtlError, pyrtl.PyrtlInternalError):
+                        late += 1
+                    if pyrtl.working_block() is not wb:
+                        return Violation('working_block', 'changed_by_refused_pass',
+                                         {'refused_from': 'the middle of the copy'}, tags + ['late_refusal'])
+                res.faults.hit('pass_refused_midway', late)
                 if pyrtl.working_block() is not wb:
                     return Violation('working_block', 'changed_by_refused_pass', {}, tags)
                 if transforms.fingerprint(wb) != fpw:
